@@ -391,7 +391,11 @@ fn angle_strat() -> BoxedStrategy<f64> {
 
 /// eye, (dir, up) = a unit vector and a second one at a prescribed angle from it (1e-3 .. pi - 1e-3), in either role
 pub fn cam_strategy<T: Fl>() -> BoxedStrategy<Vec<u64>> {
-    (eye_strat(), unit_strat(), angle_strat(), 0.0f64..(2.0 * PI), any::<bool>(), -6.0f64..6.0)
+    // distance eye -> centre: 2^-6 .. 2^6 times the eye's magnitude, and (a quarter of the cases) far closer, down to
+    // where the difference centre - eye still has a dozen significant bits: look_at is scale-invariant
+    let lo: f64 = if T::U < 1e-10 { -40.0 } else { -11.0 };
+    let de = prop_oneof![3 => -6.0f64..6.0, 1 => lo..-6.0];
+    (eye_strat(), unit_strat(), angle_strat(), 0.0f64..(2.0 * PI), any::<bool>(), de)
         .prop_map(|(eye, a, th, ph, swap, de)| {
             let mut k = 0;
             for i in 1..3 {
@@ -692,7 +696,7 @@ pub fn decode_box<T: Fl>(w: &[u64], t: &mut Tally, variant: &'static str) -> Opt
     for i in 0..6 {
         b[i] = T::fb(w[i]);
     }
-    let ok = w[..BOX_WORDS].iter().all(|x| T::fb(*x).finite()) && b[0] < b[1] && b[2] < b[3] && b[4] < b[5] && b.iter().all(|x| x.f().abs() < 1e30);
+    let ok = w[..BOX_WORDS].iter().all(|x| T::fb(*x).finite()) && b[0] != b[1] && b[2] != b[3] && b[4] < b[5] && b.iter().all(|x| x.f().abs() < 1e30);
     if !ok {
         t.class("out-of-domain");
         return None;
@@ -723,7 +727,8 @@ pub fn decode_box<T: Fl>(w: &[u64], t: &mut Tally, variant: &'static str) -> Opt
         off_axis |= k < 2 && u != 0.0 && v != 0.0;
     }
     t.class(if g[0] == -g[1] && g[2] == -g[3] { "box:symmetric" } else { "box:off-centre" });
-    let thin = ((g[0] + g[1]).abs() / (g[1] - g[0])).max((g[2] + g[3]).abs() / (g[3] - g[2]));
+    let thin = ((g[0] + g[1]).abs() / (g[1] - g[0]).abs()).max((g[2] + g[3]).abs() / (g[3] - g[2]).abs());
+    t.class(if g[0] > g[1] || g[2] > g[3] { "box:x or y planes descending (e.g. y-down screen space)" } else { "box:planes ascending" });
     t.class(if thin > 1e3 { "box:offset/extent>1e3" } else { "box:offset/extent<=1e3" });
     t.class(if g[4] < 0.0 { "near:<0" } else if g[4] == 0.0 { "near:0" } else { "near:>0" });
     let square = g[1] - g[0] == g[3] - g[2];
@@ -754,9 +759,9 @@ pub fn ortho_matrix<T: Fl>(cx: &mut Cx, spec: &PSpec, bx: &OBox<T>, cols: &[T; 1
             return Err(cx.fail(op, format!("clip w = {:e}, want 1; {}", c[3].f(), ctx(&p))));
         }
         let rx = (two * x - (r + l)) / (r - l);
-        let sx = ((two * x).abs() + (r + l).abs()) / (r - l);
+        let sx = ((two * x).abs() + (r + l).abs()) / (r - l).abs();
         let ry = (two * y - (tp + b)) / (tp - b);
-        let sy = ((two * y).abs() + (tp + b).abs()) / (tp - b);
+        let sy = ((two * y).abs() + (tp + b).abs()) / (tp - b).abs();
         let k0 = lo * f - hi * n;
         let rz = ((hi - lo) * d + k0) / (f - n);
         let sz = (((hi - lo) * d).abs() + k0.abs()) / (f - n);
@@ -772,8 +777,8 @@ pub fn box_strategy<T: Fl>() -> BoxedStrategy<Vec<u64>> {
     let half = || (-8.0f64..10.0).prop_map(|e| 2f64.powf(e));
     let near = prop_oneof![4 => (-8.0f64..8.0).prop_map(|e| 2f64.powf(e)), 1 => Just(0.0f64), 2 => sgn_pow(-8.0, 8.0)];
     let cube = |l: f64| (-l..l, -l..l, -l..l);
-    (centre(), half(), centre(), half(), near, (-8.0f64..12.0), cube(1.0), cube(1.0), cube(4.0), cube(4.0))
-        .prop_map(|(cx, hx, cy, hy, n, de, i0, i1, e0, e1)| {
+    (centre(), half(), centre(), half(), near, (-8.0f64..12.0), cube(1.0), cube(1.0), cube(4.0), cube(4.0), 0u8..16)
+        .prop_map(|(cx, hx, cy, hy, n, de, i0, i1, e0, e1, flip)| {
             let span = |c: f64, h: f64| {
                 let lo = T::rnd(c - h);
                 let mut hi = T::rnd(c + h);
@@ -784,6 +789,9 @@ pub fn box_strategy<T: Fl>() -> BoxedStrategy<Vec<u64>> {
             };
             let (l, r) = span(cx, hx);
             let (b, t) = span(cy, hy);
+            // a quarter of the boxes each: right-to-left x planes, top-to-bottom y planes (no constructor documents an ordering)
+            let (l, r) = if flip & 3 == 0 { (r, l) } else { (l, r) };
+            let (b, t) = if flip >> 2 == 0 { (t, b) } else { (b, t) };
             let n = T::rnd(n);
             let mut f = T::rnd(n.f() + 2f64.powf(de));
             if !(f > n) {
